@@ -113,6 +113,9 @@ EditClause(pre, e) ==
               THEN "WrappersRemoved"
          ELSE "ok"
     [] e.ev = "query" -> IF post.err # "" THEN "Raised" ELSE IF ~Unchanged(pre, post) THEN "QueryChangedState" ELSE "ok"
+    \* a COPY taken earlier (circuit.copy()) observed again after edits on the original: it must be exactly what it was
+    [] e.ev = "twin" -> IF post.err # "" THEN "Raised" ELSE IF ~Unchanged(pre, post) THEN "QueryChangedState"
+                        ELSE IF e.twin_now # e.twin_ref THEN "CopyIndependent" ELSE "ok"
     [] OTHER -> "HarnessUnknownEdit"
 
 Verdict(pre, e) ==
